@@ -26,7 +26,7 @@ for sid in ids:
             env = dict(os.environ)
             if only: env['VERIF_ONLY_PARTS'] = only
             t0 = time.time()
-            r = subprocess.run([V + '/check', p, '--tier', 'quick'], cwd=V, capture_output=True, text=True, env=env)
+            r = subprocess.run([V + '/check', p, '--tier', meta.get('tier', 'quick')], cwd=V, capture_output=True, text=True, env=env)
             lines = [l for l in r.stdout.split('\n') if l.startswith(('VIOLATION', 'UNDECIDED', 'OK ', 'part ', '  refuted'))]
             res[p] = {'exit': r.returncode, 'wall_s': round(time.time() - t0, 1), 'lines': lines[:12], 'only_parts': only}
             print(sid, p, 'exit', r.returncode, '|', (lines[-1] if lines else '')[:160])
